@@ -16,7 +16,7 @@ RULE = ("histories of 4..25 steps with growth refused by the data access during 
 def gen_cases(rng, tier):
     rng.next()
     rng.next()
-    cases = B.gen_ops_cases(rng, tier, 1500, 40000, refuse_sweep=True, steps=(4, 25))
+    cases = B.gen_ops_cases(rng, tier, 1500, 12000, refuse_sweep=True, steps=(4, 25))
     # every k for a few fixed growth-heavy histories
     fam = U.family()
     extra = []
